@@ -41,7 +41,7 @@ BRANCHES = [
     'groupCands:no-candidate-for-a-source', 'tableStep:several-(group,dataset)-pairs', 'normalise:ok',
     'generate:total-0', 'generate:one-dataset-drawn', 'generate:several-datasets-drawn', 'genShgs:several-groups-in-a-dataset',
     'genGroup:nothing-invalid', 'genGroup:redraw', 'redraw:one-round', 'redraw:several-rounds',
-    'replaceInvalid:keeps-valid-and-replaces-invalid', 'invalidMask:below-lo', 'invalidMask:above-hi',
+    'setSel:three-or-more-slices-in-one-buffer', 'replaceInvalid:keeps-valid-and-replaces-invalid', 'invalidMask:below-lo', 'invalidMask:above-hi',
     'invalidMask:no-ranges', 'invalidMask:several-fields', 'fieldVal:relocated-field', 'fieldVal:stored-field',
     'offsetBy:regular', 'offsetBy:pole-branch', 'postProc:ok', 'mu2flux:ok', 'setSel:several-slices-in-one-buffer',
 ]
@@ -335,9 +335,12 @@ def _mc_branches(run_):
     BR['generate:one-dataset-drawn' if nds_out == 1 else 'generate:several-datasets-drawn'] += 1
     rows_by_ds = dict((j, run_._impl_rows_of(j)) for j in run_.events)
     for j, rr in rows_by_ds.items():
-        if len(set(run_.impl_rows[r][2] for r in rr if r >= 0)) > 1:
+        ng_ = len(set(run_.impl_rows[r][2] for r in rr if r >= 0))
+        if ng_ > 1:
             BR['genShgs:several-groups-in-a-dataset'] += 1
             BR['setSel:several-slices-in-one-buffer'] += 1
+        if ng_ > 2:
+            BR['setSel:three-or-more-slices-in-one-buffer'] += 1
     BR['postProc:ok'] += 1
     polar = any(abs(abs(s_[1]) - math.pi / 2) < 1e-12 for G in c['groups'] for s_ in G['sources'])
     BR['offsetBy:pole-branch' if polar else 'offsetBy:regular'] += 1
@@ -423,7 +426,7 @@ def gen_mc_case(rng, small=False, force_simple=False):
             return c
     simple = force_simple or rng.random() < 0.15       # one dataset, one group, one source, mild rejection: redraws that end in one round
     nds = 1 if simple else rng.choice([1, 2, 2, 3])
-    ngr = 1 if simple else rng.choice([1, 1, 2])
+    ngr = 1 if simple else rng.choice([1, 1, 2, 3, 4])
     dss = []
     for j in range(nds):
         lo = rng.choice([-1.0, -0.9, -0.5, -0.2])
@@ -434,7 +437,7 @@ def gen_mc_case(rng, small=False, force_simple=False):
     U = min(d['sin_hi'] for d in dss)
     groups = []
     for g in range(ngr):
-        ns = 1 if simple else rng.choice([1, 2, 3])
+        ns = 1 if simple else (rng.choice([1, 1, 2]) if ngr >= 3 else rng.choice([1, 2, 3]))
         hbw = 0.2 if simple else rng.choice([0.02, 0.05, 0.1, math.sin(math.radians(1)) * 3])
         srcs = []
         for k in range(ns):
@@ -722,6 +725,7 @@ class McRun(object):
         self.rows, self.bands = _ref_table(case, self.mcs)
         self.exc = None
         self.kw_hist = None
+        self.merge_hist = None
         # first build without ranges (the weights are needed to design the ranges)
         (g0, self.shg_mgr, _) = _construct(self.cfg, case['groups'], self.mcs, self.lts, layout=case.get('layout', 'copy'))
         self.fac = float(self.cfg.to_internal_time_unit(time_unit=__import__('astropy.units', fromlist=['day']).day))
@@ -850,6 +854,13 @@ class McRun(object):
             for _ in range(shg.n_sources):
                 phis.append(float(shg.fluxmodel.Phi0))
                 units.append(self.units[g])
+        self.i_merge = None
+        if self.merge_hist is not None:
+            (n_in, len_in, n_out, len_out, dl) = self.merge_hist
+            self.i_merge = len(L)
+            L.append('amerge %s %s' % (','.join('%d:%s' % (a_, 'x' if b_ is None else b_) for a_, b_ in zip(n_in, len_in)),
+                                       ','.join('%d:%d' % (j, k_) for j, k_ in enumerate(dl) if k_ > 0) or '-'))
+            self.i_mu = len(L)
         self.i_kw = None
         if self.kw_hist is not None and self.kw_hist[1] is not None:
             self.i_kw = len(L)
@@ -887,6 +898,13 @@ class McRun(object):
                 return ('normalised weight of candidate %r: model %r, implementation %r' % (mrows[r], a, b), False, False)
         if self.priv and abs(b2f(sm) - self.wsum) > 1e-9 * abs(self.wsum):
             return ('candidate weight sum: model %r, implementation %r' % (b2f(sm), self.wsum), False, False)
+        # ---- Analysis bookkeeping: counts and array lengths after merging the signal into what was handed in
+        if self.i_merge is not None:
+            (n_in, len_in, n_out, len_out, dl) = self.merge_hist
+            impl = ','.join('%d:%s' % (a_, 'x' if b_ is None else b_) for a_, b_ in zip(n_out, len_out))
+            if impl != ans[self.i_merge]:
+                return ('Analysis.generate_signal_events bookkeeping (counts %r / array lengths %r handed in, signal per dataset %r): '
+                        'implementation %s, model %s' % (n_in, len_in, dl, impl, ans[self.i_merge]), False, False)
         # ---- history of Analysis calls sharing one keyword dictionary: total injected per call
         if self.i_kw is not None:
             impl = ','.join('x' if h is None else str(h) for h in self.kw_hist[1])
@@ -1108,35 +1126,60 @@ def _inject_checks(case, run):
     fake = types.SimpleNamespace(n_datasets=nds, _sig_generator=run.gen,
                                  _assert_input_arguments_of_generate_signal_events=lambda **kw: None)
 
+    # the scans below exercise the bookkeeping of Analysis, not the redraw loop: a generator without validity ranges
+    try:
+        gen_plain = fx.make_mc_generator(run.cfg, case['groups'], run.mcs, run.lts, layout=case.get('layout', 'copy'))[0]
+    except Exception:  # noqa
+        gen_plain = run.gen
+    fake_plain = types.SimpleNamespace(n_datasets=nds, _sig_generator=gen_plain,
+                                       _assert_input_arguments_of_generate_signal_events=lambda **kw: None)
+
     def call_analysis(*a, **kw):
+        who = fake_plain if kw.pop('plain', False) else fake
         try:
-            return Analysis.generate_signal_events(fake, *a, **kw)
+            return Analysis.generate_signal_events(who, *a, **kw)
         except AttributeError as e:
             if 'SimpleNamespace' in str(e):      # the method reaches for a private member our stand-in does not have
                 SKIPS['skipped:private-attr'] += 1
                 return None
             raise
     try:
-        pre = [DataFieldRecordArray(dict((k, np.array(v[:3])) for k, v in f.items()), copy=True) for f in run.mcs]
+        # bookkeeping handed in: per dataset an event array of 3 events (or None) and a count that may exceed the array
+        # length (background generated with an event pre-selection: n_bkg > len(bkg_events))
+        hr_ = np.random.RandomState((case['seed'] + 5) % (2 ** 31))
+        pre, n_in, len_in = [], [], []
+        for j, f in enumerate(run.mcs):
+            if nds > 1 and hr_.randint(0, 4) == 0 and case.get('mode', 'int') != 'int':
+                pre.append(None)
+                len_in.append(None)
+                n_in.append(int(hr_.choice([0, 2])))
+            else:
+                pre.append(DataFieldRecordArray(dict((k, np.array(v[:3])) for k, v in f.items()), copy=True))
+                len_in.append(3)
+                n_in.append(3 + int(hr_.choice([0, 0, 1, 4, 40])))
         kw_in = {'poisson': False}
         r1 = call_analysis(fx.make_rss(case['seed']), int(case['n']), sig_kwargs=kw_in,
-                           n_events_list=(np.array([3] * nds) if case.get('nlist_form') == 'ndarray' else [3] * nds),
+                           n_events_list=(np.array(n_in) if case.get('nlist_form') == 'ndarray' else list(n_in)),
                            events_list=pre)
         if r1 is not None:
             (n_sig, n_list, ev_list) = r1
-            lens = [len(e) for e in ev_list]
-            if n_sig != int(case['n']) or [int(x) for x in n_list] != lens or sum(lens) != 3 * nds + int(case['n']):
-                return ('Analysis.generate_signal_events(mean_n_sig=%d, poisson=False, 3 events per dataset already present): '
-                        'n_sig=%r, n_events_list=%r, lengths of the event lists %r' % (case['n'], n_sig, list(n_list), lens))
+            lens = [None if e is None else len(e) for e in ev_list]
+            dn = [int(a_) - b_ for a_, b_ in zip(n_list, n_in)]
+            dl = [(0 if a_ is None else a_) - (0 if b_ is None else b_) for a_, b_ in zip(lens, len_in)]
+            run.merge_hist = (n_in, len_in, [int(x) for x in n_list], lens, dl)
+            if n_sig != int(case['n']) or min(dn + [0]) < 0 or dn != dl or sum(dn) != int(case['n']):
+                return ('Analysis.generate_signal_events(mean_n_sig=%d, poisson=False) on top of events handed in (counts %r, array '
+                        'lengths %r): n_sig=%r, n_events_list=%r (signal per dataset %r), lengths of the event arrays %r (grown by %r)' % (
+                            case['n'], n_in, len_in, n_sig, [int(x) for x in n_list], dn, lens, dl))
             if case.get('mode', 'int') == 'int':
                 for j in range(nds):
-                    a_ = np.asarray(ev_list[j]['mc_id'])[3:]
+                    a_ = np.asarray(ev_list[j]['mc_id'])[3:] if pre[j] is not None else np.asarray(ev_list[j]['mc_id'])
                     b_ = np.asarray(run.events[j]['mc_id']) if j in run.events else np.empty((0,), dtype=a_.dtype)
                     if not np.array_equal(a_, b_):
                         return ('generate_signal_events twice on one generator with the same seed %d returns different events '
                                 'for dataset %d' % (case['seed'], j))
         rs2 = fx.make_rss(case['seed'] + 1)
-        r2 = call_analysis(rs2, float(case['n']) + 0.5)
+        r2 = call_analysis(rs2, float(case['n']) + 0.5, plain=True)
         if r2 is not None:
             (n_sig, n_list, ev_list) = r2
             lens = [0 if e is None else len(e) for e in ev_list]
@@ -1153,7 +1196,7 @@ def _inject_checks(case, run):
         one_rss = fx.make_rss(case['seed'] + 9)
         for step, m in enumerate(means):
             rr = call_analysis(one_rss if case.get('same_rss') else fx.make_rss(case['seed'] + 10 + step), m,
-                               sig_kwargs=shared)
+                               sig_kwargs=shared, plain=True)
             if rr is None:
                 handed = None
                 break
@@ -1168,7 +1211,7 @@ def _inject_checks(case, run):
         shared2 = {'poisson': True}
         for step, m in enumerate([2.5, 6.5, 0.75]):
             rs3 = fx.make_rss(case['seed'] + 20 + step)
-            rr = call_analysis(rs3, m, sig_kwargs=shared2)
+            rr = call_analysis(rs3, m, sig_kwargs=shared2, plain=True)
             if rr is None:
                 break
             lams = [float(x) for x in rs3.random.poisson_lams]
@@ -1387,30 +1430,74 @@ def o_change_shg(ctx, case):
     if outs[0] != outs[1]:
         return ('after change_shg_mgr generate_signal_events(mean=%d, seed=%d) returns other events than a generator built on '
                 'the new source hypothesis groups (stale candidates)' % (n, case['seed']))
-    # history on one generator object: use / change_shg_mgr in random order; every operation must work with the candidates
-    # of the manager in force (observed through mu2flux, identified against fresh generators for both managers)
+    # history on one generator object: use / change_shg_mgr(manager object) / a source replaced IN PLACE inside a manager object
+    # (what Analysis.change_source does before it hands the same manager over again), in random order.  Every operation must
+    # work with the candidates of the manager — object and content — in force since the last change_shg_mgr; observed through
+    # mu2flux, identified against fresh generators for every (object, content version).
     try:
+        from skyllh.core.source_model import PointLikeSource
         (freshA, mgrA, _) = fx.make_mc_generator(cfg, case['groups'], mcs, lts)
-        vA, vB = float(freshA.mu2flux(2.0)), float(fresh.mu2flux(2.0))
-        if vA == vA and vB == vB and abs(vA - vB) > 1e-9 * max(abs(vA), abs(vB)):
-            hr = np.random.RandomState(case['seed'] % (2 ** 31))
-            ops = [['u', 'c0', 'c1'][int(x)] for x in hr.randint(0, 3, size=6)]
-            cur, seen_, want = 1, [], []          # `used` is on manager B (=1) after the change above
+        objs = {0: (mgrA, case['groups']), 1: (mgr2, case['groups2'])}
+
+        def desc(obj, ver):
+            """groups description of manager object `obj` after `ver` in-place replacements of its first source"""
+            gs = [dict(G, sources=[tuple(x) for x in G['sources']]) for G in objs[obj][1]]
+            if ver > 0:
+                (ra0, dec0, w0) = gs[0]['sources'][0]
+                gs[0]['sources'][0] = (ra0, max(-1.4, min(1.4, dec0 + 0.11 * ver * (1 if dec0 < 0 else -1))), w0)
+            return gs
+        vals = {}
+
+        def val(obj, ver):
+            if (obj, ver) not in vals:
+                try:
+                    vals[(obj, ver)] = float(fx.make_mc_generator(cfg, desc(obj, ver), mcs, lts)[0].mu2flux(2.0))
+                except Exception:  # noqa  (no candidate at all for this content)
+                    vals[(obj, ver)] = float('nan')
+            return vals[(obj, ver)]
+        hr = np.random.RandomState(case['seed'] % (2 ** 31))
+        ops = [['u', 'c0', 'c1', 'm0', 'm1', 'm1'][int(x)] for x in hr.randint(0, 6, size=7)]
+        if True:
+            ver = {0: 0, 1: 0}
+            force = (1, 0)                     # `used` was switched to manager object 1 above
+            seen_, want, ok_ident = [], [], True
             for op in ops:
-                if op != 'u':
-                    cur = int(op[1])
-                    used.change_shg_mgr(mgr2 if cur == 1 else mgrA)
+                if op[0] == 'm':
+                    o_ = int(op[1])
+                    ver[o_] += 1
+                    src = desc(o_, ver[o_])[0]['sources'][0]
+                    objs[o_][0].shg_list[0].source_list[0] = PointLikeSource(
+                        ra=float(src[0]), dec=float(src[1]), weight=(None if src[2] is None else float(src[2])))
+                elif op[0] == 'c':
+                    o_ = int(op[1])
+                    used.change_shg_mgr(objs[o_][0])
+                    force = (o_, ver[o_])
                 v = float(used.mu2flux(2.0))
-                seen_.append(0 if abs(v - vA) <= 1e-9 * abs(vA) else 1 if abs(v - vB) <= 1e-9 * abs(vB) else -1)
-                want.append(cur)
-            CACHE_HIST.append((['c1'] + ops, [1] + seen_, dict(case)))
+                cands_ = [(o_, k_) for o_ in (0, 1) for k_ in range(ver[o_] + 1)]
+                if val(*force) != val(*force):
+                    ok_ident = False                # the content in force has no candidates: nothing to identify
+                    break
+                match = [c_ for c_ in cands_ if val(*c_) == val(*c_) and abs(v - val(*c_)) <= 1e-9 * abs(val(*c_))]
+                match = [force] if force in match else (match if len(match) == 1 else [(-1, -1)])
+                seen_.append(match[0])
+                want.append(force)
+            # leave both manager objects and the generator as they were handed in
+            for o_ in (0, 1):
+                src = desc(o_, 0)[0]['sources'][0]
+                objs[o_][0].shg_list[0].source_list[0] = PointLikeSource(
+                    ra=float(src[0]), dec=float(src[1]), weight=(None if src[2] is None else float(src[2])))
             used.change_shg_mgr(mgr2)
-            if seen_ != want:
-                return ('history %r on one MCMultiDatasetSignalGenerator (c<m> = change_shg_mgr to manager m, u = mu2flux): the '
-                        'operations work with the candidates of managers %r, the managers in force are %r (stale candidates)' % (
-                            ops, seen_, want))
+            if ok_ident and len(seen_) == len(ops):
+                CACHE_HIST.append((['c1'] + ops, [(1, 0)] + seen_, dict(case)))
+                if seen_ != want:
+                    return ('history %r on one MCMultiDatasetSignalGenerator (c<k> = change_shg_mgr(manager object k), m<k> = first source '
+                            'of manager object k replaced in place, u = use; after every operation mu2flux is read): the generator works '
+                            'with the candidates of (object, content version) %r, in force are %r (stale candidates)' % (
+                                ops, seen_, want))
+            else:
+                SKIPS['change_shg:history-not-identifiable(skipped)'] += 1
     except Exception as e:  # noqa
-        return 'history of change_shg_mgr / mu2flux calls raised %s: %s' % (type(e).__name__, e)
+        return 'history of change_shg_mgr / in-place source replacement / mu2flux raised %s: %s' % (type(e).__name__, e)
     # implementation-private state, when it can be seen
     (a, b) = (_private(used, '_sig_candidates'), _private(fresh, '_sig_candidates'))
     if a is not None and b is not None and (len(a) != len(b) or a.tobytes() != b.tobytes()):
@@ -1468,6 +1555,8 @@ def _classify(res):
         return 'redraw-endless-no-valid-candidate'
     if 'does not terminate' in res:
         return 'redraw-does-not-terminate'
+    if 'on top of events handed in' in res:
+        return 'bookkeeping-of-handed-in-events'
     if 'reuses one sig_kwargs dictionary' in res:
         return 'shared-sig_kwargs-keeps-stale-total'
     if 'same generator object' in res:
@@ -1680,11 +1769,11 @@ def _run(ctx):
                                                     else '50-80%' if m_ < 0.8 else '80-95%' if m_ < 0.95 else '>95%'))
         if run_.vinfo['dropped']:
             ctx.count('mc:ranges-dropped(<1%-valid-mass)', run_.vinfo['dropped'])
-        if it % 6 == 0 and run_.impl_rows:
+        if it % 10 == 0 and run_.impl_rows:
             # the class the generator otherwise avoids: a drawn (dataset, group) without any valid candidate
             j0 = max(range(len(c['dss'])), key=lambda j: sum(w for r, w in zip(run_.rows, run_.ref_wnorm) if r[0] == j))
             ce = dict(c, valid_ranges=[({'ang_err': (-2.0, -1.0)} if j == j0 else {}) for j in range(len(c['dss']))],
-                      budget=2500, n=max(5, int(c['n'])), mode='int')
+                      budget=1200, n=max(5, int(c['n'])), mode='int')
             ctx.case(key=('endless', ce))
             ctx.count('mc:no-valid-candidate-in-a-drawn-group')
             res = o_inject(ctx, ce)
@@ -1721,7 +1810,7 @@ def _run(ctx):
         answers_c = ctx.driver('C18', ['cache ' + ','.join(ops) for (ops, _, _) in CACHE_HIST])
         for (ops, seen_, cc), a_ in zip(CACHE_HIST, answers_c):
             ctx.count('change_shg:history-compared-with-model')
-            if ','.join(str(x) for x in seen_) != a_:
+            if ','.join('%d:%d' % x for x in seen_) != a_:
                 suspicious.append(('change_shg', cc, 'history %r: candidates in use per operation — implementation %r, model %s' % (
                     ops, seen_, a_), a_, False))
         del CACHE_HIST[:]
